@@ -34,6 +34,12 @@ def lib_of_call(prog, module, call, local_objs=None):
     """Which compression library does this opener call belong to? Follows `cctx = zstd.ZstdCompressor(); cctx.stream_writer(...)`."""
     r = prog.resolve_expr(module, call.func)
     name = getattr(r, "name", None)
+    if name is not None and name.split(".")[0] not in LIB_OF_PREFIX:
+        # a wrapper around the opener (io.BufferedReader(gzip.GzipFile(...))): look at the wrapped calls
+        for inner in [a for a in ast.walk(call) if isinstance(a, ast.Call) and a is not call]:
+            l = lib_of_call(prog, module, inner, local_objs)
+            if l:
+                return l
     if name is None and isinstance(call.func, ast.Attribute) and isinstance(call.func.value, ast.Name) and local_objs:
         name = local_objs.get(call.func.value.id)
     if name is None:
